@@ -517,8 +517,9 @@ def units(tier, seed):
     add('eigh/2x2 repeated eigenvalue, split at order 1/D2,P2', 'h_eigh_repeated', D=2, P=2)
     if tier != 'quick':
         add('eigh/2x2 repeated eigenvalue, split at order 1/D4,P1', 'h_eigh_repeated', D=4, P=1)
+    add('svd/2x2/D2,P1', 'h_svd', o={'crosscheck': False}, D=2, P=1)
     if tier != 'quick':
-        add('svd/2x2/D2,P1', 'h_svd', o={'unit_timeout': 1500, 'crosscheck': False}, D=2, P=1)
+        add('svd/2x2/D2,P2', 'h_svd', o={'unit_timeout': 1500, 'crosscheck': False, 'path_budget': 600}, D=2, P=2)
     add('eig/2x2/D2,P1', 'h_eig', o={'validate_values': False}, n=2, D=2, P=1)
     add('eig/2x2/D2,P2', 'h_eig', o={'validate_values': False}, n=2, D=2, P=2)
     return out
